@@ -24,6 +24,11 @@ fn main() {
     let code = match cmd.as_str() {
         "rig" => vdrv::rig::main(),
         "fn-table" => vdrv::fntable::main(),
+        "disk" => vdrv::disk::main(),
+        "telemetry" => vdrv::telemetry::main(),
+        "provision" => vdrv::provision::main(),
+        "keykeeper" => vdrv::keykeeper::main(),
+        "robust" => vdrv::robust::main(),
         other => {
             eprintln!("verif-agent: unknown VERIF_CMD '{}'", other);
             2
